@@ -9,7 +9,7 @@ from autobean_refactor.models import base as mbase
 
 CASES = {'quick': 3000, 'thorough': 60000}
 GATES = {
-    'quick': {'evaluations': 12000, 'steps_changing_raw_list': 7000, 'ordered_view_pairs': 30, 'families_seen': 6,
+    'quick': {'evaluations': 12000, 'steps_changing_raw_list': 5500, 'ordered_view_pairs': 30, 'families_seen': 6,
               'read_probes': 100000, 'refusals_matched': 1500, 'meta_mapping_steps': 500},
     'thorough': {'evaluations': 400000, 'ordered_view_pairs': 30, 'families_seen': 6},
 }
